@@ -42,7 +42,7 @@ LEVEL_NOTE = (
     "theorem; the hi/lo pair theorems are at the apply level; merging/layout is C12, relaxation C13.")
 TECHNIQUE = ("Lean 4 proofs (bit-field algebra + omega on literal div/mod) over hand models + differential correspondence through the real "
              "linker + spec validation against LLVM's disassembler")
-RULE = ("per relocation type: distances d = S - P - bias at +-2^k, +-2^k+-{2,4,8} for k around the field width and the accepted width, "
+RULE = ("links with SEVERAL relocations (same type, different addends -4/-5/-8/0/7/-1000/+-2^20 on rel32, different symbols, other types interleaved, shuffled order); per relocation type: distances d = S - P - bias at +-2^k, +-2^k+-{2,4,8} for k around the field width and the accepted width, "
         "several code/data addresses and paddings (site alignment), addends {-4,0} for rel32; distinct = distinct (type, S, P, bytes); "
         "non-trivial = every case (each is a full link of two objects under a generated layout)")
 TRUSTED = [
@@ -284,6 +284,107 @@ def check_links(ctx):
 
 
 # ---------------------------------------------------------------------------------------------
+# several relocations per link: same type with DIFFERENT addends, different symbols, interleaved with other types
+
+# (bytes before the field, bytes after the field, relocation type, addend)
+MULTI = {
+    "x86_64": [("e8", "", "rel32", -4), ("833d", "07", "rel32", -5), ("c705", "78563412", "rel32", -8), ("e9", "", "rel32", -4),
+               ("0f84", "", "rel32", -4), ("48b8", "", "abs64", 0), ("e8", "", "rel32", 0), ("e8", "", "rel32", 7),
+               ("e8", "", "rel32", -1000), ("b8", "", "abs32", 0), ("e8", "", "rel32", 1 << 20), ("e8", "", "rel32", -(1 << 20))],
+    "riscv": [("", "", "b_imm20", 0), ("", "", "b_imm12", 0), ("", "", "b_imm20", 0), ("", "", "absaddr32", 0), ("", "", "b_imm12", 0)],
+    "arm": [("", "", "imm24", 0), ("", "", "imm24", 0), ("", "", "absaddr32", 0), ("", "", "imm24", 0)],
+    "arm:thumb": [("", "", "wrap_new11", 0), ("", "", "bl_imm11", 0), ("", "", "rel8", 0), ("", "", "bl_imm11", 0)],
+}
+FIELD0 = {"b_imm20": "6f000000", "b_imm12": "63000000", "absaddr32": "00000000", "imm24": "000000ea", "wrap_new11": "00e0",
+          "bl_imm11": "00f000f8", "rel8": "00d0", "rel32": "00000000", "abs32": "00000000", "abs64": "0000000000000000"}
+
+
+def check_multi(ctx):
+    """one link, many relocations: every field must resolve with ITS OWN symbol and ITS OWN addend
+    (the list-level theorem all_sites_resolve_partial on real links, incl. heterogeneous addends)"""
+    from ppci.api import link, get_arch
+    from ppci.binutils.objectfile import ObjectFile, RelocationEntry
+    from ppci.binutils.layout import Layout, Memory, Section as LSection
+    reqs, meta = [], []
+    for archname, frags in MULTI.items():
+        arch = get_arch(archname)
+        isa = ARCHS[archname]
+        for rnd in range(12 if ctx.thorough else 4):
+            order = list(frags)
+            ctx.rng.shuffle(order)
+            if rnd == 0:
+                order = list(frags)
+            near = isa in ("thumb",) or any(t in ("b_imm12", "rel8") for _, _, t, _ in order)
+            code_addr = ctx.rng.choice([0x1000, 0x20000])
+            far_addr = code_addr + (0x80 if near else ctx.rng.choice([0x400, 0x8000, 0x100000]))
+            o1 = ObjectFile(arch)
+            code = o1.get_section("code", create=True)
+            o2 = ObjectFile(arch)
+            o2.get_section("far", create=True).add_data(bytes(0x40))
+            sym_offs = [0, 4, 16, 32]
+            for k, off in enumerate(sym_offs):
+                o1.add_symbol(k, f"t{k}", "global", None, None, "object", 0)
+                o2.add_symbol(k, f"t{k}", "global", off, "far", "object", 0)
+            o1.add_symbol(10, "here", "local", 0, "code", "object", 0)
+            entries = []
+            for j, (pre, post, rtype, A) in enumerate(order):
+                off = code.size + len(bytes.fromhex(pre))
+                code.add_data(bytes.fromhex(pre) + bytes.fromhex(FIELD0[rtype]) + bytes.fromhex(post))
+                sym = 10 if (isa == "x86_64" and j % 5 == 4) else j % len(sym_offs)
+                o1.add_relocation(RelocationEntry(rtype, sym, "code", off, A))
+                entries.append((rtype, sym, off, A))
+            before = bytes(code.data)
+            lay = Layout()
+            m1 = Memory("m1"); m1.location = code_addr; m1.size = 0x80; m1.add_input(LSection("code")); lay.add_memory(m1)
+            m2 = Memory("m2"); m2.location = far_addr; m2.size = 0x40; m2.add_input(LSection("far")); lay.add_memory(m2)
+            try:
+                out = link([o1, o2], layout=lay)
+                data = bytes(out.get_section("code").data)
+                impl = "ok " + data.hex()
+            except Exception as e:  # noqa
+                impl = "err " + exc_name(e)
+                data = None
+            ctx.count("programs")
+            ctx.count("eval_multi_link")
+            ctx.count("multi_" + ("ok" if data is not None else impl[4:]))
+            svals = {k: far_addr + off for k, off in enumerate(sym_offs)}
+            svals[10] = code_addr
+            reqs.append(f"dorels {isa} {code_addr} {before.hex()} " + ";".join(f"{t}:{o}:{A}:{svals[sy]}" for t, sy, o, A in entries))
+            meta.append(("dorels", impl, None))
+            ctx.nontrivial(reqs[-1])
+            if data is None:
+                continue
+            for t, sy, o, A in entries:
+                size = len(bytes.fromhex(FIELD0[t]))
+                S, P = svals[sy], code_addr + o
+                case = {"arch": archname, "isa": isa, "reloc": t, "S": S, "P": P, "addend": A, "multi": True,
+                        "order": [f"{x[2]}:{x[3]}" for x in order]}
+                reqs.append(f"rrep {isa} {t} {S} {A} {P}")
+                meta.append(("rrep", impl, case))
+                reqs.append(f"rtarget {isa} {t} {data[o:o + size].hex()} {P}")
+                meta.append(("rtarget", impl, case))
+    out = ctx.driver("C11", reqs) if reqs else []
+    rep = None
+    for rq, (kind, impl, case), m in zip(reqs, meta, out):
+        if kind == "dorels":
+            ctx.count("eval_dorels")
+            if impl != m:
+                ctx.disagree("do_relocations (several relocations, own addends)", rq[:300], impl[:200], m[:200])
+        elif kind == "rrep":
+            rep = m
+        elif kind == "rtarget":
+            if rep != "ok true":
+                continue
+            ctx.count("eval_link_property")
+            ctx.count("multi_site_checked")
+            want = case["S"] + (case["addend"] if case["reloc"] == "rel32" else 0)
+            if m != f"ok {want}":
+                ctx.fail(f"link:{case['reloc']}@{case['isa']}:wrong-target-among-several-relocations",
+                         f"{case['arch']} link with several relocations ({', '.join(case['order'])}): the {case['reloc']} field at {case['P']} "
+                         f"(symbol at {case['S']}, addend {case['addend']}) designates {m[3:]}, expected {want}", case)
+
+
+# ---------------------------------------------------------------------------------------------
 # assembled programs: the relocations the real instruction classes emit
 
 
@@ -293,8 +394,9 @@ ASM = [
     ("arm", "arm", "section code\n b target\n bl target\n", "section far\n global target\n target:\n mov r0, r1\n", [(0, "imm24"), (4, "imm24")]),
     ("arm:thumb", "thumb", "section code\n b target\n bl target\n beq target\n", "section far\n global target\n target:\n mov r0, r1\n",
      [(0, "wrap_new11"), (2, "bl_imm11"), (6, "rel8")]),
-    ("x86_64", "x86_64", "section code\n jmp target\n call target\n jz target\n", "section far\n global target\n target:\n ret\n",
-     [(1, "rel32"), (6, "rel32"), (12, "rel32")]),
+    ("x86_64", "x86_64", "section code\n jmp target\n call target\n mov rax, [target]\n jz target\n mov [target], rax\n mov [rip, 16], rax\n",
+     "section far\n global target\n target:\n ret\n",
+     [(1, "rel32"), (6, "rel32"), (14, "abs32"), (20, "rel32"), (28, "abs32")]),
 ]
 
 
@@ -323,16 +425,18 @@ def check_asm(ctx):
             for off, rtype in sites:
                 if (off, rtype) not in emitted:
                     ctx.disagree("asm relocation", {"arch": archname, "site": off, "type": rtype}, sorted(emitted), "expected site")
-                    continue
+            for r in o1.relocations:          # every relocation the assembler emitted, with the addend IT chose
+                off, rtype, A = r.offset, r.reloc_type, r.addend
                 size = {"jmp8": 1, "wrap_new11": 2, "rel8": 2, "lit8": 2}.get(rtype, 4)
-                A = -4 if rtype == "rel32" else 0
+                if A != 0:
+                    ctx.count(f"asm_addend_{rtype}_{A}")
                 case = {"arch": archname, "isa": isa, "reloc": rtype, "S": S, "P": code_addr + off, "addend": A, "asm": True}
                 reqs.append(f"rtarget {isa} {rtype} {data[off:off + size].hex()} {code_addr + off}")
                 meta.append(case)
     out = ctx.driver("C11", reqs) if reqs else []
     for rq, case, m in zip(reqs, meta, out):
         ctx.count("eval_link_property")
-        want = case["S"] + case["addend"]
+        want = case["S"] + (case["addend"] if case["reloc"] == "rel32" else 0)
         if m != f"ok {want}":
             ctx.fail(f"link:{case['reloc']}@{case['isa']}:wrong-target-asm",
                      f"{case['arch']} assembled {case['reloc']} at {case['P']}: the linked field designates {m[3:]}, symbol is at {case['S']}", case)
@@ -516,6 +620,7 @@ def check(ctx):
             ctx.note("proofs do not build and the driver cannot run: no failing-input search possible")
             return
     check_links(ctx)
+    check_multi(ctx)
     check_asm(ctx)
     check_programs(ctx)
     if ctx.thorough:
